@@ -6,7 +6,7 @@
    hand: facts about the matrix are boolean sweeps over the 23 x 23 cells ([table_forall],
    proved by [vm_compute]); facts about the statement semantics are proved for arbitrary
    nested-call functions and lifted to [call_rule] by induction on the fuel. *)
-From CE Require Import Model.Rules.
+From CE Require Import Model.Rules Model.RulesSpec.
 From Coq Require Import ZifyN ZifyNat ZifyBool.
 Open Scope N_scope.
 
@@ -133,5 +133,344 @@ Ltac unfold_prims H :=
   unfold key_from_array, chunk_data, end_chunk, rule_chunk, try_end_array, end_container, end_container_like,
          begin_container, unstack_rule, local_reference, mark_object, begin_array_any, notify_key in H.
 
+(* reduce record projections applied to record updates, and nothing else *)
+Ltac rsimpl :=
+  cbn [cur stack depth objects rectypes rectype_name arr_type more_chunks built arr_total chunk_expected chunk_actual
+       utf8_rem arr_validator marker_id marked fwd refcount
+       set_cur set_stack set_depth set_objects set_rectypes set_array set_markers set_rule stack_rule begin_array mk_entry
+       e_rule e_dtype e_count e_expected e_keys] in *.
+
 Ltac prim_cases p H := destruct p; unfold_prims H; inv_some.
 
+
+(* ------------------------------------------------------------------------- *)
+(* The receiver layer in uniform shape                                        *)
+(* ------------------------------------------------------------------------- *)
+(* Every event is handled as: a state-independent guard, an optional NotifyNewObject(real),
+   one method call on the rule in force, and the event forwarded. *)
+Record plan := { p_nno : option bool; p_meth : meth; p_args : args; p_out : event }.
+Definition mkplan (nno : option bool) (m : meth) (a : args) (e : event) : option plan :=
+  Some {| p_nno := nno; p_meth := m; p_args := a; p_out := e |}.
+Definition key_args (dt : N) (k : rawkey) : args :=
+  {| a_dtype := dt; a_key := Some k; a_id := []; a_arrty := 0; a_count := 0; a_data := []; a_version := 0; a_more := false |}.
+
+Definition ev_plan (cfg : rcfg) (e : event) : option plan :=
+  let keyable_ dt k := mkplan (Some true) MKeyableObject (key_args dt k) e in
+  let nonkey dt e' := mkplan (Some true) MNonKeyableObject (with_dtype no_args dt) e' in
+  let null_ e' := mkplan (Some true) MNull no_args e' in
+  match e with
+  | EBeginDoc => mkplan None MBeginDocument no_args e
+  | EEndDoc => mkplan None MEndDocument no_args e
+  | EVersion v => mkplan None MVersion
+      {| a_dtype := 0; a_key := None; a_id := []; a_arrty := 0; a_count := 0; a_data := []; a_version := v; a_more := false |} e
+  | EPadding => mkplan None MPadding no_args e
+  | EComment _ _ => mkplan None MComment no_args e
+  | ENull => null_ e
+  | EBool b => keyable_ DT_Bool (RkBool b)
+  | ETrue => keyable_ DT_Bool (RkBool true)
+  | EFalse => keyable_ DT_Bool (RkBool false)
+  | EPosInt n => keyable_ DT_Int (RkUint64 n)
+  | ENegInt n => keyable_ DT_Int (RkNegint n)
+  | EInt z => keyable_ DT_Int (RkInt64 z)
+  | EBigInt None => null_ ENull
+  | EBigInt (Some z) => keyable_ DT_Int (RkBigInt z)
+  | EFloat bits => if f64_is_nan bits then nonkey DT_Nan (ENan (negb (f64_quiet_bit bits))) else nonkey DT_Float e
+  | EBigFloat None => null_ ENull
+  | EBigFloat (Some _) => nonkey DT_Float e
+  | EDecimal DQNan => nonkey DT_Nan (ENan false)
+  | EDecimal DSNan => nonkey DT_Nan (ENan true)
+  | EDecimal _ => nonkey DT_Float e
+  | EBigDecimal None => null_ ENull
+  | EBigDecimal (Some DSNan) => nonkey DT_Nan (ENan true)
+  | EBigDecimal (Some DQNan) => nonkey DT_Nan (ENan false)
+  | EBigDecimal (Some _) => nonkey DT_Float e
+  | ENan _ => nonkey DT_Nan e
+  | EUid b => keyable_ DT_UID (RkBytes b)
+  | ETime s => keyable_ DT_Time (RkTime s)
+  | EArray t count data => if array_api_ok t then mkplan (Some true) MArray (array_args t count data) e else None
+  | EStringArray t data => if array_api_ok t then mkplan (Some true) MStringlikeArray (array_args t 0 data) e else None
+  | EMedia mt data => if negb (utf8_valid mt) then None else mkplan (Some true) MArray (array_args AT_Media (blen data) data) e
+  | ECustomBin ct data => mkplan (Some true) MArray (array_args AT_CustomBinary (blen data) data) e
+  | ECustomText ct data => mkplan (Some true) MStringlikeArray (array_args AT_CustomText 0 data) e
+  | EArrayBegin t => if array_api_ok t then mkplan (Some true) MArrayBegin (array_args t 0 []) e else None
+  | EMediaBegin mt => if negb (utf8_valid mt) then None else mkplan (Some true) MArrayBegin (array_args AT_Media 0 []) e
+  | ECustomBegin t ct => if custom_api_ok t then mkplan (Some true) MArrayBegin (array_args t 0 []) e else None
+  | EArrayChunk n more => mkplan None MArrayChunk
+      {| a_dtype := 0; a_key := None; a_id := []; a_arrty := 0; a_count := n; a_data := []; a_version := 0; a_more := more |} e
+  | EArrayData d => mkplan None MArrayData (array_args 0 0 d) e
+  | EList => mkplan (Some true) MList no_args e
+  | EMap => mkplan (Some true) MMap no_args e
+  | EEdge => mkplan (Some true) MEdge no_args e
+  | ENode => mkplan (Some true) MNode no_args e
+  | EEnd => mkplan None MEnd no_args e
+  | ERecordType id => if validate_identifier cfg id then mkplan (Some false) MRecordType (with_id id) e else None
+  | ERecord id => if validate_identifier cfg id then mkplan (Some true) MRecord (with_id id) e else None
+  | EMarker id => if validate_identifier cfg id then mkplan (Some true) MMarker (with_id id) e else None
+  | ERefLocal id => if validate_identifier cfg id then mkplan (Some true) MReferenceLocal (with_id id) e else None
+  end.
+
+Definition plan_step (cfg : rcfg) (pl : plan) (c : rctx) : option rctx :=
+  match (match p_nno pl with Some real => notify_new_object cfg real c | None => Some c end) with
+  | Some c1 => call_current cfg (p_meth pl) (p_args pl) c1
+  | None => None
+  end.
+
+Lemma rstep_plan cfg c e :
+  rstep cfg c e =
+  match ev_plan cfg e with
+  | Some pl => match plan_step cfg pl c with Some c2 => Some (c2, [p_out pl]) | None => None end
+  | None => None
+  end.
+Proof.
+  destruct e as [| |v| |m t| |b| | |n|n|z|[z|]|bits|[bf|]|d|[d|]|s|b|s| | |id|id| | | |id|id|t cnt d|t d|mt d|ct d|ct d|t|mt|t ct|n m|d];
+    cbn [rstep ev_plan mkplan]; unfold plan_step, keyable, nonkeyable, simple, obind, key_args; cbn [p_nno p_meth p_args p_out]; cbv beta zeta;
+    try reflexivity;
+    repeat (match goal with
+    | d : dfloat |- _ => destruct d
+    | |- context [if ?b then _ else _] => destruct b
+    | |- context [match notify_new_object ?a ?b ?c with _ => _ end] => destruct (notify_new_object a b c)
+    end; cbn [mkplan p_nno p_meth p_args p_out]; try reflexivity).
+Qed.
+
+(* ------------------------------------------------------------------------- *)
+(* Runs                                                                       *)
+(* ------------------------------------------------------------------------- *)
+(* the context after a list of events, when all are accepted *)
+Fixpoint steps (cfg : rcfg) (c : rctx) (es : list event) : option rctx :=
+  match es with
+  | [] => Some c
+  | e :: r => match rstep cfg c e with Some (c1, _) => steps cfg c1 r | None => None end
+  end.
+
+Lemma steps_app cfg es1 : forall c es2,
+  steps cfg c (es1 ++ es2) = match steps cfg c es1 with Some c1 => steps cfg c1 es2 | None => None end.
+Proof.
+  induction es1 as [|e es IH]; intros c es2; cbn [app steps]; [reflexivity|].
+  destruct (rstep cfg c e) as [[c1 o]|]; [apply IH | reflexivity].
+Qed.
+
+Lemma run_from_steps cfg es : forall c i out,
+  match steps cfg c es with
+  | Some c' => exists out', run_from cfg c i es out = (c', out', None)
+  | None => exists c' out' j, run_from cfg c i es out = (c', out', Some j)
+  end.
+Proof.
+  induction es as [|e es IH]; intros c i out; cbn [steps run_from].
+  - eexists; reflexivity.
+  - destruct (rstep cfg c e) as [[c1 o]|]; [apply IH | do 3 eexists; reflexivity].
+Qed.
+
+Lemma accepts_steps cfg es : accepts cfg es = true <-> exists c, steps cfg init_rctx es = Some c.
+Proof.
+  unfold accepts, rejected_at, run. pose proof (run_from_steps cfg es init_rctx 0 []) as H.
+  destruct (steps cfg init_rctx es) as [c'|].
+  - destruct H as [out' H]. rewrite H. cbn. split; eauto.
+  - destruct H as [c' [out' [j H]]]. rewrite H. cbn. split; [discriminate | intros [c0 X]; discriminate].
+Qed.
+
+Lemma accepts_document_steps cfg es :
+  accepts_document cfg es = true <-> exists c, steps cfg init_rctx es = Some c /\ e_rule (cur c) = RTerminal.
+Proof.
+  unfold accepts_document, run. pose proof (run_from_steps cfg es init_rctx 0 []) as H.
+  destruct (steps cfg init_rctx es) as [c'|].
+  - destruct H as [out' H]. rewrite H. split.
+    + intro X. exists c'. split; [reflexivity|]. destruct (e_rule (cur c')); try discriminate; reflexivity.
+    + intros [c0 [X Y]]. inv_some. rewrite Y. reflexivity.
+  - destruct H as [c' [out' [j H]]]. rewrite H. split; [discriminate | intros [c0 [X _]]; discriminate].
+Qed.
+
+Lemma accepts_document_accepts cfg es : accepts_document cfg es = true -> accepts cfg es = true.
+Proof. rewrite accepts_document_steps, accepts_steps. intros [c [H _]]; eauto. Qed.
+
+(* prefixes of accepted lists are accepted *)
+Lemma accepts_app cfg es tl : accepts cfg (es ++ tl) = true -> accepts cfg es = true.
+Proof.
+  rewrite !accepts_steps, steps_app. intros [c H]. destruct (steps cfg init_rctx es) as [c1|]; [eauto | discriminate].
+Qed.
+
+(* the index reported by [run_from] *)
+Lemma run_from_rejected cfg es : forall c i out c' out' j,
+  run_from cfg c i es out = (c', out', Some j) ->
+  exists k, j = i + N.of_nat k /\ (k < length es)%nat /\
+            steps cfg c (firstn k es) = Some c' /\ rstep cfg c' (nth k es EPadding) = None.
+Proof.
+  induction es as [|e es IH]; intros c i out c' out' j H; cbn [run_from] in H; [inv_some|].
+  destruct (rstep cfg c e) as [[c1 o]|] eqn:E.
+  - apply IH in H as [k [Hj [Hk [Hs Hr]]]]. exists (S k). cbn [firstn steps nth length]. rewrite E.
+    repeat split; try assumption; lia.
+  - inv_some. exists O. cbn. rewrite E. repeat split; try reflexivity; lia.
+Qed.
+
+Lemma run_from_app cfg es1 : forall c i out es2,
+  run_from cfg c i (es1 ++ es2) out =
+  match run_from cfg c i es1 out with
+  | (c1, out1, None) => run_from cfg c1 (i + N.of_nat (length es1)) es2 out1
+  | r => r
+  end.
+Proof.
+  induction es1 as [|e es IH]; intros c i out es2; cbn [app run_from length].
+  - f_equal. lia.
+  - destruct (rstep cfg c e) as [[c1 o]|]; [|reflexivity]. rewrite IH.
+    destruct (run_from cfg c1 (N.succ i) es (out ++ o)) as [[c2 o2] [j|]]; [reflexivity|]. f_equal. lia.
+Qed.
+
+(* C10 (a): a rejection is permanent, and happens at the first event that cannot be accepted *)
+Theorem rejected_at_app cfg es tl i : rejected_at cfg es = Some i -> rejected_at cfg (es ++ tl) = Some i.
+Proof.
+  unfold rejected_at, run. rewrite run_from_app.
+  destruct (run_from cfg init_rctx 0 es []) as [[c o] [j|]]; cbn; [auto | discriminate].
+Qed.
+
+Theorem rejected_at_first cfg es i :
+  rejected_at cfg es = Some i ->
+  (N.to_nat i < length es)%nat /\
+  accepts cfg (firstn (N.to_nat i) es) = true /\
+  accepts cfg (firstn (S (N.to_nat i)) es) = false.
+Proof.
+  unfold rejected_at, run. destruct (run_from cfg init_rctx 0 es []) as [[c o] [j|]] eqn:E; cbn [snd]; [|discriminate].
+  intro H; inv_some. apply run_from_rejected in E as [k [Hj [Hk [Hs Hr]]]].
+  assert (N.to_nat i = k) as -> by lia. split; [exact Hk|]. split.
+  - apply accepts_steps. eauto.
+  - destruct (accepts cfg (firstn (S k) es)) eqn:A; [|reflexivity]. exfalso.
+    apply accepts_steps in A as [c1 A].
+    assert (firstn (S k) es = firstn k es ++ [nth k es EPadding]) as X.
+    { clear -Hk. revert k Hk; induction es as [|e es IH]; intros k Hk; cbn in Hk; [lia|].
+      destruct k; [reflexivity|]. cbn [firstn nth app]. f_equal. apply IH. lia. }
+    rewrite X, steps_app, Hs in A. cbn [steps] in A. rewrite Hr in A. discriminate.
+Qed.
+
+Corollary accepts_app_false cfg es tl : accepts cfg es = false -> accepts cfg (es ++ tl) = false.
+Proof.
+  unfold accepts. destruct (rejected_at cfg es) as [i|] eqn:E; [|discriminate].
+  intros _. rewrite (rejected_at_app cfg es tl i E). reflexivity.
+Qed.
+
+(* Invariants along a run, indexed by the events consumed so far. *)
+Lemma steps_invariant cfg (Inv : list event -> rctx -> Prop) :
+  Inv [] init_rctx ->
+  (forall p c e c' o, Inv p c -> steps cfg init_rctx p = Some c -> rstep cfg c e = Some (c', o) -> Inv (p ++ [e]) c') ->
+  forall es c, steps cfg init_rctx es = Some c -> Inv es c.
+Proof.
+  intros H0 Hstep es. induction es as [|e es IH] using rev_ind; intros c H.
+  - cbn in H. inv_some. exact H0.
+  - rewrite steps_app in H. destruct (steps cfg init_rctx es) as [c1|] eqn:E; [|discriminate].
+    cbn [steps] in H. destruct (rstep cfg c1 e) as [[c2 o]|] eqn:E2; [|discriminate]. inv_some.
+    eapply Hstep; eauto.
+Qed.
+
+(* ------------------------------------------------------------------------- *)
+(* C14 (a): raising a limit never turns acceptance into rejection             *)
+(* ------------------------------------------------------------------------- *)
+Lemma cfg_le_refl a : cfg_le a a.
+Proof. unfold cfg_le. repeat split; lia. Qed.
+
+Lemma cfg_le_trans a b c : cfg_le a b -> cfg_le b c -> cfg_le a c.
+Proof. unfold cfg_le. intros H1 H2. repeat split; lia. Qed.
+
+Section Mono.
+  Variables cfg cfg' : rcfg.
+  Hypothesis Hle : cfg_le cfg cfg'.
+
+  Lemma length_ok_le len : length_ok cfg len = true -> length_ok cfg' len = true.
+  Proof. unfold length_ok. destruct Hle as [_ [_ [H _]]]. lia. Qed.
+
+  Lemma validate_identifier_le id : validate_identifier cfg id = true -> validate_identifier cfg' id = true.
+  Proof.
+    unfold validate_identifier. destruct Hle as [_ [_ [_ [H _]]]].
+    rewrite !andb_true_iff. intros [[H1 H2] H3]. repeat split; try assumption. lia.
+  Qed.
+
+  Lemma nno_le real c c' : notify_new_object cfg real c = Some c' -> notify_new_object cfg' real c = Some c'.
+  Proof.
+    unfold notify_new_object. destruct Hle as [H _]. intro E. inv_some.
+    destruct (max_object_count cfg' <? objects c + 1) eqn:X; [lia | reflexivity].
+  Qed.
+
+  Lemma validate_any_le t n d : validate_full_array_any cfg t n d = true -> validate_full_array_any cfg' t n d = true.
+  Proof.
+    unfold validate_full_array_any. destruct (is_stringlike_validated t).
+    - rewrite !andb_true_iff. intros [H1 H2]. split; [apply length_ok_le|]; assumption.
+    - destruct (array_bits t); [|auto]. rewrite !andb_true_iff. intros [H1 H2]. split; [|apply length_ok_le]; assumption.
+  Qed.
+  Lemma validate_stringlike_le t d :
+    validate_full_array_stringlike cfg t d = true -> validate_full_array_stringlike cfg' t d = true.
+  Proof.
+    unfold validate_full_array_stringlike. destruct (is_stringlike_validated t).
+    - rewrite !andb_true_iff. intros [H1 H2]. split; [apply length_ok_le|]; assumption.
+    - apply length_ok_le.
+  Qed.
+
+  Lemma exec_prim_le call call' :
+    (forall r m a c c', call r m a c = Some c' -> call' r m a c = Some c') ->
+    forall self m a p c c', exec_prim cfg call self m a p c = Some c' -> exec_prim cfg' call' self m a p c = Some c'.
+  Proof.
+    intros Hcall self m a p c c' E.
+    destruct Hle as [Ho [Hd [Ha [Hi [Hr Hv]]]]].
+    destruct p; cbn [exec_prim] in E |- *;
+      unfold key_from_array, chunk_data, end_chunk, rule_chunk, try_end_array, end_container, end_container_like,
+             begin_container, unstack_rule, local_reference, mark_object, begin_array_any, notify_key in E |- *;
+      inv_some;
+      repeat match goal with
+      | H : _ && _ = true |- _ => apply andb_true_iff in H as [? ?]
+      | H : assert_array_type _ _ = true |- _ => rewrite H; clear H
+      | H : call _ _ _ _ = Some _ |- _ => apply Hcall in H; rewrite ?H
+      | H : validate_full_array_any cfg _ _ _ = true |- _ => apply validate_any_le in H; rewrite ?H
+      | H : validate_full_array_stringlike cfg _ _ = true |- _ => apply validate_stringlike_le in H; rewrite ?H
+      end;
+      rewrite ?andb_true_r; cbn [andb];
+      try reflexivity;
+      repeat match goal with
+      | |- context [if ?b then _ else _] => destruct b eqn:?; try lia
+      end; try reflexivity; try congruence.
+  Qed.
+
+  Lemma exec_prims_le call call' :
+    (forall r m a c c', call r m a c = Some c' -> call' r m a c = Some c') ->
+    forall self m a ps c c', exec_prims cfg call self m a ps c = Some c' -> exec_prims cfg' call' self m a ps c = Some c'.
+  Proof.
+    intros Hcall self m a ps; induction ps as [|p ps IH]; intros c c' E; cbn [exec_prims] in E |- *; [exact E|].
+    destruct (exec_prim cfg call self m a p c) as [c1|] eqn:E1; [|discriminate].
+    rewrite (exec_prim_le call call' Hcall _ _ _ _ _ _ E1). apply IH. exact E.
+  Qed.
+
+  Lemma call_rule_le f : forall r m a c c', call_rule f cfg r m a c = Some c' -> call_rule f cfg' r m a c = Some c'.
+  Proof.
+    induction f as [|f IH]; intros r m a c c' E; cbn [call_rule] in E |- *; [discriminate|].
+    eapply exec_prims_le; eauto.
+  Qed.
+
+  Lemma ev_plan_le e pl : ev_plan cfg e = Some pl -> ev_plan cfg' e = Some pl.
+  Proof.
+    destruct e; cbn [ev_plan]; try (intro H; exact H);
+      (destruct (validate_identifier cfg id) eqn:V; [|discriminate]);
+      rewrite (validate_identifier_le _ V); auto.
+  Qed.
+
+  Lemma plan_step_le pl c c' : plan_step cfg pl c = Some c' -> plan_step cfg' pl c = Some c'.
+  Proof.
+    unfold plan_step, call_current. intro E. destruct (p_nno pl) as [real|].
+    - destruct (notify_new_object cfg real c) as [c1|] eqn:N; [|discriminate].
+      rewrite (nno_le _ _ _ N). apply call_rule_le. exact E.
+    - apply call_rule_le. exact E.
+  Qed.
+
+  Lemma rstep_le c e x : rstep cfg c e = Some x -> rstep cfg' c e = Some x.
+  Proof.
+    rewrite !rstep_plan. destruct (ev_plan cfg e) as [pl|] eqn:P; [|discriminate].
+    rewrite (ev_plan_le _ _ P). destruct (plan_step cfg pl c) as [c2|] eqn:S; [|discriminate].
+    rewrite (plan_step_le _ _ _ S). auto.
+  Qed.
+
+  Lemma steps_le es : forall c c', steps cfg c es = Some c' -> steps cfg' c es = Some c'.
+  Proof.
+    induction es as [|e es IH]; intros c c' E; cbn [steps] in E |- *; [exact E|].
+    destruct (rstep cfg c e) as [[c1 o]|] eqn:R; [|discriminate].
+    rewrite (rstep_le _ _ _ R). apply IH. exact E.
+  Qed.
+
+  Theorem accepts_mono es : accepts cfg es = true -> accepts cfg' es = true.
+  Proof. rewrite !accepts_steps. intros [c H]. exists c. apply steps_le. exact H. Qed.
+
+  Theorem accepts_document_mono es : accepts_document cfg es = true -> accepts_document cfg' es = true.
+  Proof. rewrite !accepts_document_steps. intros [c [H T]]. exists c. split; [apply steps_le|]; assumption. Qed.
+End Mono.
